@@ -4,7 +4,10 @@ use crate::common::points::{dist, mean_point};
 use crate::common::poisson_disk::sample_poisson_disk;
 use crate::common::SurfacePointCollection;
 use crate::{Point3, SurfacePoint3};
+#[cfg(not(feature = "verif"))]
 use rand::prelude::SliceRandom;
+#[cfg(feature = "verif")]
+use crate::verif::rand_seam::{self as rand, prelude::SliceRandom};
 use std::f64::consts::PI;
 
 impl Mesh {
